@@ -140,6 +140,16 @@ func prgSampling(args []string) int {
 		ej[i] = samplingOut{fmt.Sprintf("explore-%s-%d-%d-depth%d", jobs[i].Kind, jobs[i].N, jobs[i].M, jobs[i].Depth), ev, v}
 	})
 	res = append(res, ej...)
+	// definitional comparisons apply only to an implementation that follows the transcribed algorithm where exact counting can tell
+	if prgx.MappingMismatches > 0 {
+		for i := range res {
+			for j := range res[i].Violations {
+				if p := res[i].Violations[j].Predicate; p == "UintNDefinition" || p == "UintNRejection" {
+					res[i].Violations[j].Property = "NOTE"
+				}
+			}
+		}
+	}
 	for i := range res {
 		if res[i].Violations == nil {
 			res[i].Violations = []prgx.Violation{}
